@@ -36,3 +36,29 @@ pub use crate::{
     keeper::Keeper,
     serde::{Checksummer, EntryDeserializer, EntrySerializer, KvInfo},
 };
+
+/// Block manager events, recorded in the order they take effect under the state lock (feature `verif` only).
+#[derive(Debug, Clone, Copy, PartialEq, Eq)]
+pub enum BlockEvent {
+    /// `get_clean_block` found no clean block and registered a waiter.
+    Wait,
+    /// A block was handed to a writer (from the clean queue, or to a waiter when its reclaim finished).
+    Handed(u32),
+    /// `on_writing_finish`: the block became evictable.
+    Finished(u32),
+    /// The block was picked and its reclaim started.
+    ReclaimStart(u32),
+    /// `on_reclaim_finish`.
+    ReclaimDone(u32),
+}
+
+static BLOCK_EVENTS: std::sync::Mutex<Vec<BlockEvent>> = std::sync::Mutex::new(Vec::new());
+
+pub(crate) fn block_event(e: BlockEvent) {
+    BLOCK_EVENTS.lock().unwrap().push(e);
+}
+
+/// Take the block manager events recorded so far (process-wide).
+pub fn take_block_events() -> Vec<BlockEvent> {
+    std::mem::take(&mut *BLOCK_EVENTS.lock().unwrap())
+}
